@@ -82,6 +82,8 @@ func behPlan(b string) (string, string) {
 		return "ignore_wrapped", "render"
 	case "mixed":
 		return "render", "skip"
+	case "ignore_alias": // nothing for the named types; ErrIgnore comes from GenerateAliasType (see runStep)
+		return "nothing", "nothing"
 	case "blank": // white space only
 		return "blank", "nothing"
 	case "defer_only": // nothing from GenerateType, something from the deferred callback
@@ -228,6 +230,17 @@ func runStep(self, root, layout string, pc pipeCase, st pipeStep, scratch string
 		t1, t2 := behPlan(b[2])
 		plan[pipe.PkgPath(layout, b[0])+"|"+b[1]+"|T1"] = t1
 		plan[pipe.PkgPath(layout, b[0])+"|"+b[1]+"|T2"] = t2
+	}
+	// the alias A1 of the "alias" variant: nothing is rendered for it; behaviour ignore_alias signals ErrIgnore from GenerateAliasType
+	for k := range plan {
+		if strings.HasSuffix(k, "|T1") {
+			plan[strings.TrimSuffix(k, "|T1")+"|A1"] = "nothing"
+		}
+	}
+	for _, b := range pc.Beh {
+		if b[2] == "ignore_alias" {
+			plan[pipe.PkgPath(layout, b[0])+"|"+b[1]+"|A1"] = "ignore"
+		}
 	}
 	// the lower-case twins of the shadow variant behave like T2
 	for k, v := range plan {
